@@ -65,6 +65,16 @@ S_IF_MORE = [
     "if c == 1:\n c = 0\nelse:\n c = 1\n x = x + 1\nend",
     "if c + d == 1:\n x = x + 1\nend",
 ]
+S_ABSTR = [
+    "g = Uniform(0, 1)\nif g < 1/4:\n x = x + 1\nend",
+    "g = Uniform(0, 2)\nif g > 1/2:\n x = x + 1\nelse:\n x = x - y\nend",
+    "g = Uniform(0, 1)\nh = Uniform(0, 1)\nif g < 1/2 && h > 1/4:\n x = x + 2\nend",
+    "g = Uniform(0, 1)\nif g < 1/3:\n y = y + 1\nelif g < 2/3:\n x = x + 1\nend",
+    "g = Uniform(0, 1)\nif g < 1/2 && c == 1:\n x = x + 1\nend",
+    "g = Uniform(0, 1)\nh = g\nif h > 1/2:\n x = x + g\nend",
+    "g = Uniform(0, 1)\nif g > 1/2:\n x = x + g\nend",
+    "g = Uniform(0, 1)\nif g < 1/4:\n c = 1 - c\nend",
+]
 S_CONT = [
     "g = Normal(0, 1)\nx = x + g",
     "g = Normal(x, 1)\ny = y + g**2",
@@ -92,7 +102,7 @@ S_ALIAS = [
 GUARDS = ["true", "c == 1"]
 GUARDS_MORE = ["c < 2", "c == 1 && d == 0", "!(c == 0)", "c >= 1/2"]
 
-INIT_CONST = {"c": "1", "d": "0", "x": "1", "y": "2", "z": "3", "g": "0"}
+INIT_CONST = {"c": "1", "d": "0", "x": "1", "y": "2", "z": "3", "g": "0", "h": "0"}
 
 
 def _written(stmt):
@@ -180,7 +190,7 @@ def assigned_vars(text):
     return vs
 
 
-def goals_for(text, max_deg=2, limit=8, skip=("g",)):
+def goals_for(text, max_deg=2, limit=8, skip=("g", "h")):
     """Monomials of total degree <= max_deg over the assigned variables, simplest first."""
     order = {"x": 0, "y": 1, "c": 2, "z": 3, "d": 4}
     vs = sorted((v for v in assigned_vars(text) if v not in skip), key=lambda v: (order.get(v, 9), v))
